@@ -34,6 +34,7 @@ class MemFS:
     def __init__(self, sched, files):
         self.sched = sched
         self.files = dict(files)
+        self.gaps = []           # os / os.path names used by the code under test that the model does not cover
 
     def open(self, path, mode='rb'):
         self.sched.yield_point('open ' + mode)
@@ -41,6 +42,8 @@ class MemFS:
             self.files[path] = b''          # truncation happens at open
             return MemFile(self, path, True)
         if path not in self.files:
+            if any(f.startswith(path.rstrip('/') + '/') for f in self.files) or path.rstrip('/') == ROOT:
+                raise IsADirectoryError(path)
             raise FileNotFoundError(path)
         return MemFile(self, path, False)
 
@@ -89,36 +92,100 @@ class MemFile:
         self._commit()
 
 
+class ShimGap(AttributeError):
+    """the code under test used an os / os.path name the in-memory model does not cover: a harness gap, never a verdict"""
+
+
+PURE_PATH = ('join', 'dirname', 'basename', 'split', 'splitext', 'normpath', 'isabs', 'sep', 'relpath', 'commonpath')
+
+
 class ShimPath:
+    """os.path over MemFS: the predicates that look at the file system are yield points answered from the model (only regular
+    files under ROOT exist; their parents are directories); pure string functions are the real ones"""
+
     def __init__(self, fs):
         self.fs = fs
-        self.join = real_os.path.join
-        self.dirname = real_os.path.dirname
+        for n in PURE_PATH:
+            setattr(self, n, getattr(real_os.path, n))
+
+    def __getattr__(self, name):
+        if name.startswith('_'):
+            raise AttributeError(name)
+        self.fs.gaps.append('os.path.' + name)
+        raise ShimGap('os.path.' + name)
+
+    def abspath(self, p):
+        return real_os.path.normpath(real_os.path.join(ROOT, p))
+
+    realpath = abspath
+
+    def _is_dir(self, p):
+        p = p.rstrip('/')
+        return p == ROOT or ROOT.startswith(p + '/') or any(f.startswith(p + '/') for f in self.fs.files)
+
+    def isfile(self, p):
+        self.fs.sched.yield_point('isfile')
+        return p in self.fs.files
+
+    def isdir(self, p):
+        self.fs.sched.yield_point('isdir')
+        return self._is_dir(p)
 
     def exists(self, p):
         self.fs.sched.yield_point('exists')
-        return p in self.fs.files
+        return p in self.fs.files or self._is_dir(p)
+
+    lexists = exists
+
+    def islink(self, p):
+        return False
 
     def getsize(self, p):
         self.fs.sched.yield_point('getsize')
         if p not in self.fs.files:
+            if self._is_dir(p):
+                return 4096
             raise FileNotFoundError(p)
         return len(self.fs.files[p])
+
+
+class ShimStat:
+    def __init__(self, size, is_file):
+        self.st_size = size
+        self.st_mode = 0o100644 if is_file else 0o040755
 
 
 class ShimOS:
     def __init__(self, fs):
         self.fs = fs
         self.path = ShimPath(fs)
+        self.sep = real_os.sep
+        self.fspath = real_os.fspath
+
+    def __getattr__(self, name):
+        if name.startswith('_'):
+            raise AttributeError(name)
+        self.fs.gaps.append('os.' + name)
+        raise ShimGap('os.' + name)
 
     def makedirs(self, p, exist_ok=False):
         self.fs.sched.yield_point('makedirs')
 
+    def stat(self, p):
+        self.fs.sched.yield_point('stat')
+        if p in self.fs.files:
+            return ShimStat(len(self.fs.files[p]), True)
+        if self.path._is_dir(p):
+            return ShimStat(4096, False)
+        raise FileNotFoundError(p)
+
     def fsync(self, fd):
         self.fs.sched.yield_point('fsync')
 
+    fdatasync = fsync
+
     def getcwd(self):
-        return '/mem'
+        return ROOT
 
 
 class ShimTime:
@@ -130,6 +197,18 @@ class ShimTime:
 
     def time(self):
         return float(self.sched.now())
+
+    monotonic = perf_counter = time
+    monotonic_ns = perf_counter_ns = time_ns
+
+    def sleep(self, seconds):
+        self.sched.yield_point('sleep')
+
+    def __getattr__(self, name):
+        if name.startswith('_'):
+            raise AttributeError(name)
+        self.sched.gaps.append('time.' + name)
+        raise AttributeError('time.' + name)
 
 
 # ------------------------------------------------------------------ one run
@@ -185,6 +264,10 @@ def run_case(files, limit, programs, schedule):
             sched.run()
         except Deadlock as e:
             deadlock = str(e)
+        gaps = sorted(set(fs.gaps) | set(sched.gaps))
+        if gaps:
+            raise core.HarnessError("C18 models (file system, lock, future, executor, clock) do not cover " + ', '.join(gaps) +
+                                    " used by klongpy/db/file_cache.py: extend vk/c18_linear.py / vk/sched.py")
         final = None
         if deadlock is None:
             # quiescent observations, sequentially (no scheduler involvement: everything is done)
